@@ -16,7 +16,7 @@ Proof. reflexivity. Qed.
 Fixpoint mon_after (cfg : config) (m : mon) (ops : list op) : mon :=
   match ops with
   | [] => m
-  | o :: r => mon_after cfg (mon_step cfg m o) r
+  | o :: r => mon_after cfg (mon_step cfg m o (fired cfg o)) r
   end.
 
 Lemma Inv_run : forall cfg ops st m, Inv cfg st m -> Inv cfg (run cfg st ops) (mon_after cfg m ops).
@@ -257,10 +257,10 @@ Proof.
   cbn [map check_fors]. rewrite (check_for_model cfg st m q HI Hcap). apply IH; assumption.
 Qed.
 
-Lemma mon_check_model : forall cfg st m, Inv cfg st m -> (cap cfg <= 3)%nat ->
-  mon_check cfg m (observe cfg st) = [].
+Lemma mon_check_model : forall cfg st m f, Inv cfg st m -> (cap cfg <= 3)%nat ->
+  mon_check cfg m (observe cfg st f) = [].
 Proof.
-  intros cfg st m HI Hcap. unfold mon_check, observe. cbn [o_for o_all].
+  intros cfg st m f HI Hcap. unfold mon_check, observe. cbn [o_for o_all].
   rewrite (check_fors_model cfg st m (queries cfg) 0 HI Hcap).
   rewrite (check_all_model cfg st m HI Hcap). reflexivity.
 Qed.
@@ -271,8 +271,9 @@ Lemma mon_run_model : forall cfg ops st m i, Inv cfg st m -> (cap cfg <= 3)%nat 
   mon_run cfg m i (trace cfg st ops) = [].
 Proof.
   intros cfg ops. induction ops as [|o r IH]; intros st m i HI Hcap; [reflexivity|].
-  cbn [trace mon_run]. pose proof (Inv_step cfg st m o HI) as HI'.
-  rewrite (mon_check_model cfg _ _ HI' Hcap). apply IH; assumption.
+  cbn [trace mon_run]. cbn [observe o_fired]. pose proof (Inv_step cfg st m o HI) as HI'.
+  fold (observe cfg (step cfg st o) (fired cfg o)).
+  rewrite (mon_check_model cfg _ _ (fired cfg o) HI' Hcap). apply IH; assumption.
 Qed.
 
 Lemma holds_model : forall cfg ops, (cap cfg <= 3)%nat -> holds cfg (trace cfg init_state ops) = true.
@@ -363,7 +364,7 @@ Qed.
 Lemma disconnect_cobs : forall cfg st c,
   cobs (step cfg st (Disconnect c)) = del Z.eqb c (cobs st).
 Proof.
-  intros cfg st c. cbn [step]. unfold remove_conn. cbn [mark_closed cobs].
+  intros cfg st c. cbn [step]. unfold disconnect, remove_conn. cbn [mark_closed cobs].
   destruct (get Z.eqb c (cobs st)) eqn:Eg.
   - destruct (conn_info cfg c) as [ci|]; [|reflexivity].
     destruct (c_local ci); [|reflexivity]. destruct (observer_of (c_remote ci)); reflexivity.
@@ -382,7 +383,7 @@ Proof.
   pose proof (Inv_step cfg _ _ (Disconnect c) HI) as HI'.
   repeat split.
   - rewrite disconnect_cobs. apply get_del_same.
-  - cbn [step]. unfold remove_conn. cbn [mark_closed ext cobs closed].
+  - cbn [step]. unfold disconnect, remove_conn. cbn [mark_closed ext cobs closed].
     assert (Hz : zmem c (if zmem c (closed (reach cfg ops)) then closed (reach cfg ops)
                          else c :: closed (reach cfg ops)) = true).
     { destruct (zmem c (closed (reach cfg ops))) eqn:E; [exact E|].
@@ -480,3 +481,29 @@ Qed.
    completeness half of c17_addrs_threshold *)
 Lemma default_threshold_positive_l : 1 <= ActivationThresh.
 Proof. vm_compute. discriminate. Qed.
+
+(* a connection that closes while its report is being taken in (after the
+   filters of shouldRecordObservation, before the lock) gets no credit: the
+   IsClosed check runs under the lock, after the interleaved removeConn *)
+Lemma close_during_observation_l : forall cfg st c oa,
+  hook_fires cfg c oa = true ->
+  let st' := step cfg st (ObserveDuring c oa c) in
+  get Z.eqb c (cobs st') = None /\ zmem c (closed st') = true /\ st' = disconnect cfg st c.
+Proof.
+  intros cfg st c oa Hf. cbn zeta. cbn [step]. rewrite Hf.
+  assert (Hz : zmem c (closed (disconnect cfg st c)) = true).
+  { unfold disconnect, remove_conn. cbn [mark_closed ext cobs closed].
+    assert (Hz : zmem c (if zmem c (closed st) then closed st else c :: closed st) = true).
+    { destruct (zmem c (closed st)) eqn:E; [exact E|].
+      unfold zmem. cbn [existsb]. rewrite Z.eqb_refl. reflexivity. }
+    destruct (get Z.eqb c (cobs st)); [|exact Hz].
+    destruct (conn_info cfg c) as [ci|]; [|exact Hz].
+    destruct (c_local ci); [|exact Hz]. destruct (observer_of (c_remote ci)); exact Hz. }
+  assert (Hr : record cfg (disconnect cfg st c) c oa = disconnect cfg st c).
+  { pose proof (record_counts cfg (disconnect cfg st c) c oa) as R.
+    unfold counts in R. rewrite Hz in R.
+    destruct (conn_info cfg c); exact R. }
+  rewrite Hr. repeat split; [|exact Hz].
+  change (disconnect cfg st c) with (step cfg st (Disconnect c)).
+  rewrite disconnect_cobs. apply get_del_same.
+Qed.
